@@ -7,8 +7,9 @@
    base, length) that is read through the memory it points into.  Two things
    real slices can do that this cannot are reported as events instead of being
    idealised silently: reading an alias whose activation is gone (dead_read)
-   and growing a stack while one of its frames is captured (grew_captured: the
-   Go append may move the array and leave the alias behind).  A run without
+   and reading a captured frame after the stack it lives in has grown
+   (grew_captured: the Go append may have moved the array and left the alias
+   behind).  A run without
    events is claimed to match the Go code exactly.
 
    Every Go panic is the Abort outcome. *)
@@ -19,7 +20,7 @@ Definition minStackSize := 128.
 
 Inductive framed :=
 | FNone                                   (* nil slice: Top() outside any call *)
-| FAlias (mid serial base len : Z)        (* m.stack[fp:le] of a live activation *)
+| FAlias (mid serial base len gen : Z)    (* m.stack[fp:le] of a live activation, taken at stack generation gen *)
 | FOwned (vals : list value).             (* slices.Clone of a frame *)
 
 Record mem := {
@@ -28,11 +29,12 @@ Record mem := {
   m_clos : list framed;   (* closure stack, appended at the end *)
   m_stack : list value;   (* the whole backing slice, length = len(m.stack) *)
   m_serials : list Z;     (* serial number of each active frame, innermost last *)
-  m_cap : list Z          (* serials of frames captured by FUNC and still active *)
+  m_cap : list Z;         (* serials of frames captured by FUNC and still active *)
+  m_gen : Z               (* how many times the stack slice has grown *)
 }.
 
 Definition mem_new : mem :=
-  {| m_sp := 0; m_fp := []; m_clos := []; m_stack := []; m_serials := []; m_cap := [] |}.
+  {| m_sp := 0; m_fp := []; m_clos := []; m_stack := []; m_serials := []; m_cap := []; m_gen := 0 |}.
 
 Record ctx := {
   c_ip : Z;
@@ -117,11 +119,11 @@ Definition growStack (m : mem) (size : Z) : mem * bool :=
   if m_sp m + size >=? zlen (m_stack m) then
     ({| m_sp := m_sp m; m_fp := m_fp m; m_clos := m_clos m;
         m_stack := m_stack m ++ repeat VNil (Z.to_nat (Z.max minStackSize size));
-        m_serials := m_serials m; m_cap := m_cap m |}, true)
+        m_serials := m_serials m; m_cap := m_cap m; m_gen := m_gen m + 1 |}, true)
   else (m, false).
 
 Definition with_stack (m : mem) (st : list value) (sp : Z) : mem :=
-  {| m_sp := sp; m_fp := m_fp m; m_clos := m_clos m; m_stack := st; m_serials := m_serials m; m_cap := m_cap m |}.
+  {| m_sp := sp; m_fp := m_fp m; m_clos := m_clos m; m_stack := st; m_serials := m_serials m; m_cap := m_cap m; m_gen := m_gen m |}.
 
 Definition stack_set (m : mem) (i : Z) (v : value) : outcome mem :=
   if (i <? 0) || (i >=? zlen (m_stack m)) then Abort "stack index out of range"
@@ -154,7 +156,7 @@ Definition mPushFrame (m : mem) (argsCnt localCnt serial : Z) : outcome (mem * b
     let st := fill_nil (m_stack m1) (Z.to_nat (m_sp m1)) (Z.to_nat locals) in
     let sp := m_sp m1 + locals in
     Good ({| m_sp := sp; m_fp := m_fp m1 ++ [sp - localCnt; sp]; m_clos := m_clos m1; m_stack := st;
-             m_serials := m_serials m1 ++ [serial]; m_cap := m_cap m1 |}, g).
+             m_serials := m_serials m1 ++ [serial]; m_cap := m_cap m1; m_gen := m_gen m1 |}, g).
 
 Definition mPopFrame (m : mem) : outcome mem :=
   fp <~ fp_at m (-2) ;;
@@ -164,7 +166,8 @@ Definition mPopFrame (m : mem) : outcome mem :=
           m_cap := match gone with
                    | Some s => filter (fun x => negb (x =? s)) (m_cap m)
                    | None => m_cap m
-                   end |}.
+                   end;
+          m_gen := m_gen m |}.
 
 Definition mSet (m : mem) (ix : Z) (v : value) : outcome mem :=
   fp <~ fp_at m (-2) ;; stack_set m (fp + ix) v.
@@ -175,14 +178,14 @@ Definition mLookUpLocal (m : mem) (ix : Z) : outcome value :=
 Definition mCallDepth (m : mem) : Z := zlen (m_fp m) / 2.
 
 Definition mReset (m : mem) : mem :=
-  {| m_sp := 0; m_fp := []; m_clos := []; m_stack := m_stack m; m_serials := []; m_cap := [] |}.
+  {| m_sp := 0; m_fp := []; m_clos := []; m_stack := m_stack m; m_serials := []; m_cap := []; m_gen := 0 |}.
 
 (* Clone(nil): a fresh memory holding a copy of the top frame (with its scratch area) *)
 Definition mClone (m : mem) (serial : Z) : outcome mem :=
   let newClosure := match last_opt (m_clos m) with Some f => [f] | None => [] end in
   if zlen (m_fp m) <? 2 then
     Good {| m_sp := 0; m_fp := []; m_clos := newClosure; m_stack := repeat VNil (Z.to_nat minStackSize);
-            m_serials := []; m_cap := [] |}
+            m_serials := []; m_cap := []; m_gen := 0 |}
   else
     fp <~ fp_at m (-2) ;;
     le <~ fp_at m (-1) ;;
@@ -192,7 +195,7 @@ Definition mClone (m : mem) (serial : Z) : outcome mem :=
       let part := firstn (Z.to_nat (m_sp m - fp)) (skipn (Z.to_nat fp) (m_stack m)) in
       Good {| m_sp := m_sp m - fp; m_fp := [0; le - fp]; m_clos := newClosure;
               m_stack := part ++ repeat VNil (Z.to_nat (size - (m_sp m - fp)));
-              m_serials := [serial]; m_cap := [] |}.
+              m_serials := [serial]; m_cap := []; m_gen := 0 |}.
 
 (* ---- the machine ---- *)
 
@@ -203,7 +206,7 @@ Definition set_mem (v : vm) (mid : Z) (m : mem) (grew : bool) : vm :=
   {| v_cs := v_cs v; v_ncs := v_ncs v; v_ds := v_ds v; v_dbg := v_dbg v; v_globals := v_globals v;
      v_mems := assoc_set (v_mems v) mid m; v_ctxs := v_ctxs v; v_frames := v_frames v; v_next := v_next v;
      v_out := v_out v; v_in := v_in v; v_dead_read := v_dead_read v;
-     v_grew_captured := v_grew_captured v || (grew && negb (match m_cap m with [] => true | _ => false end)) |}.
+     v_grew_captured := v_grew_captured v |}.
 
 Definition set_ctx (v : vm) (cid : Z) (c : ctx) : vm :=
   {| v_cs := v_cs v; v_ncs := v_ncs v; v_ds := v_ds v; v_dbg := v_dbg v; v_globals := v_globals v;
@@ -237,6 +240,11 @@ Definition set_in (v : vm) (l : list string) : vm :=
      v_mems := v_mems v; v_ctxs := v_ctxs v; v_frames := v_frames v; v_next := v_next v;
      v_out := v_out v; v_in := l; v_dead_read := v_dead_read v; v_grew_captured := v_grew_captured v |}.
 
+Definition flag_stale (v : vm) : vm :=
+  {| v_cs := v_cs v; v_ncs := v_ncs v; v_ds := v_ds v; v_dbg := v_dbg v; v_globals := v_globals v;
+     v_mems := v_mems v; v_ctxs := v_ctxs v; v_frames := v_frames v; v_next := v_next v;
+     v_out := v_out v; v_in := v_in v; v_dead_read := v_dead_read v; v_grew_captured := true |}.
+
 Definition flag_dead (v : vm) : vm :=
   {| v_cs := v_cs v; v_ncs := v_ncs v; v_ds := v_ds v; v_dbg := v_dbg v; v_globals := v_globals v;
      v_mems := v_mems v; v_ctxs := v_ctxs v; v_frames := v_frames v; v_next := v_next v;
@@ -258,14 +266,17 @@ Definition read_frame (v : vm) (f : framed) (ix : Z) : outcome (vm * value) :=
   match f with
   | FNone => Abort "closure frame: index out of range"
   | FOwned vals => x <~ req (znth vals ix) "closure frame: index out of range" ;; Good (v, x)
-  | FAlias mid serial base len =>
+  | FAlias mid serial base len gen =>
       if (ix <? 0) || (ix >=? len) then Abort "closure frame: index out of range"
       else
         match assoc_get (v_mems v) mid with
         | None => Good (flag_dead v, VNil)
         | Some m =>
             let live := existsb (fun s => s =? serial) (m_serials m) in
-            let v' := if live then v else flag_dead v in
+            let v0 := if live then v else flag_dead v in
+            (* the stack slice has grown since the frame was captured: the Go
+               alias may point into the array that was left behind *)
+            let v' := if m_gen m =? gen then v0 else flag_stale v0 in
             match znth (m_stack m) (base + ix) with
             | Some x => Good (v', x)
             | None => Good (flag_dead v, VNil)
@@ -278,13 +289,14 @@ Definition frame_content (v : vm) (f : framed) : vm * framed :=
   match f with
   | FNone => (v, FNone)
   | FOwned vals => (v, FOwned vals)
-  | FAlias mid serial base len =>
+  | FAlias mid serial base len gen =>
       match assoc_get (v_mems v) mid with
       | None => (flag_dead v, FOwned (repeat VNil (Z.to_nat len)))
       | Some m =>
           let live := existsb (fun s => s =? serial) (m_serials m) in
           let vals := firstn (Z.to_nat len) (skipn (Z.to_nat base) (m_stack m)) in
-          ((if live then v else flag_dead v), FOwned vals)
+          let v0 := if live then v else flag_dead v in
+          ((if (m_gen m =? gen) || (len =? 0) then v0 else flag_stale v0), FOwned vals)
       end
   end.
 
@@ -606,9 +618,10 @@ Definition step (v : vm) (r : regs) (retResult : bool) : stepres :=
           if zlen (m_fp m) <? 1 then (FNone, m)
           else match znth (m_fp m) (zlen (m_fp m) - 2), znth (m_fp m) (zlen (m_fp m) - 1), last_opt (m_serials m) with
                | Some fp, Some le, Some ser =>
-                   (FAlias mid ser fp (le - fp),
+                   (FAlias mid ser fp (le - fp) (m_gen m),
                     {| m_sp := m_sp m; m_fp := m_fp m; m_clos := m_clos m; m_stack := m_stack m;
-                       m_serials := m_serials m; m_cap := ser :: filter (fun x => negb (x =? ser)) (m_cap m) |})
+                       m_serials := m_serials m; m_cap := ser :: filter (fun x => negb (x =? ser)) (m_cap m);
+                       m_gen := m_gen m |})
                | _, _, _ => (FNone, m)
                end in
         let (v1, fid) := add_frame (set_mem v0 mid m' false) frame in
@@ -627,7 +640,7 @@ Definition step (v : vm) (r : regs) (retResult : bool) : stepres :=
           pm <~ mPushFrame m a1 (fn_locals morph) ser ;;
           let (m1, g1) := pm in
           let m2 := {| m_sp := m_sp m1; m_fp := m_fp m1; m_clos := m_clos m1 ++ [fr]; m_stack := m_stack m1;
-                       m_serials := m_serials m1; m_cap := m_cap m1 |} in
+                       m_serials := m_serials m1; m_cap := m_cap m1; m_gen := m_gen m1 |} in
           v2 <~ vPush (set_mem v1 mid m2 g1) mid (VInt ip) ;;
           Good (next v2 (with_ip r (fn_node morph - 1)))
     | _ => Good (SErr v0 cid ip ErrType [f])
@@ -662,7 +675,7 @@ Definition step (v : vm) (r : regs) (retResult : bool) : stepres :=
           if zlen (m_clos m1) <? 1 then Abort "PopClosure: slice bounds out of range"
           else
             let m2 := {| m_sp := m_sp m1; m_fp := m_fp m1; m_clos := drop_last 1 (m_clos m1); m_stack := m_stack m1;
-                         m_serials := m_serials m1; m_cap := m_cap m1 |} in
+                         m_serials := m_serials m1; m_cap := m_cap m1; m_gen := m_gen m1 |} in
             v2 <~ vPush (set_mem v1 mid m2 false) mid val ;;
             Good (next v2 (with_ip r lip))
       | _ => Abort "can't pop instruction pointer"
